@@ -781,3 +781,61 @@ func rulePassphraseHashedWhole(c *report.Ctx) {
 		_ = n
 	}
 }
+
+// ruleMemoryTipFollowsPersistedTip (C06, C01): the in-memory tip only ever takes a value the synced-to chain has or gets.
+func ruleMemoryTipFollowsPersistedTip(c *report.Ctx) {
+	p := c.P
+	c.Rule("memory-tip-follows-persisted-tip", "every function that writes NtfnsHandler.bestBlock (whole or one field) either copies what SyncStore.SyncedTo returned or also moves the persisted tip (reaches SetSyncedTo / ResetSyncedTo): the in-memory tip decides 'plain extension or reorg' for the next block, so a tip taken from anywhere else (e.g. the node's block at that height after a restart on an abandoned branch) makes catch-up connect on top of blocks that were never rolled back", 2)
+	nh := p.Type(pkgWallet, "NtfnsHandler")
+	set := fn(c, pkgTxmgr, "SyncStore", "SetSyncedTo")
+	reset := fn(c, pkgTxmgr, "SyncStore", "ResetSyncedTo")
+	syncedTo := fn(c, pkgTxmgr, "SyncStore", "SyncedTo")
+	if nh == nil || set == nil || syncedTo == nil {
+		return
+	}
+	isSynced := func(v ssa.Value) bool {
+		if ex, ok := v.(*ssa.Extract); ok {
+			v = ex.Tuple
+		}
+		call, ok := v.(*ssa.Call)
+		return ok && call.Call.StaticCallee() == syncedTo
+	}
+	tr := &an.Tracer{P: p, Leaf: isSynced, ThroughDeref: true}
+	for _, f := range p.ModFuncs {
+		if pk := an.FuncPkg(f); pk == nil || pk.Path() != pkgWallet {
+			continue
+		}
+		stores := fieldStoresAny(f, nh, "bestBlock")
+		if len(stores) == 0 {
+			continue
+		}
+		owner := apiOwnerOrSelf(p, f)
+		moves := false
+		reached, _ := p.Reach([]*ssa.Function{owner}, an.ReachOpts{})
+		if reached[set] || (reset != nil && reached[reset]) {
+			moves = true
+		}
+		for i, s := range stores {
+			key := siteKey(f, "bestBlock=", i+1)
+			if moves {
+				c.OK(key, "the function also moves the persisted tip", posOf(c, s))
+				continue
+			}
+			fromSynced := true
+			os := tr.Origins(s.(*ssa.Store).Val)
+			if len(os) == 0 {
+				fromSynced = false
+			}
+			for _, o := range os {
+				if !isSynced(o.V) {
+					fromSynced = false
+				}
+			}
+			if fromSynced {
+				c.OK(key, "copy of SyncStore.SyncedTo's answer", posOf(c, s))
+			} else {
+				c.Fail(key, "the in-memory tip is set from something other than the persisted synced-to block in a function that does not move the persisted tip: after this the handler believes it stands on a block the wallet never applied (or never rolled back from), and the next block is connected as a plain extension of the wrong parent", posOf(c, s), p.Desc(s.(*ssa.Store).Val))
+			}
+		}
+	}
+}
